@@ -316,6 +316,113 @@ pub fn judge(case: &Case, acc: &mut Acc) {
     }
 }
 
+/// The output of an input that is DONE is on standard output before the next input is touched: with a
+/// later input that is still pending (a FIFO nobody writes to yet, a pipe on standard input that stays
+/// silent), the earlier input's translation must arrive (bounded wait), whatever happens afterwards -
+/// the later input may never come, the process may be killed.
+fn visible_once(to: Fmt, later_is_stdin: bool, n_docs: usize, wait_secs: u64) -> Result<bool, String> {
+    use std::process::{Command, Stdio};
+    use std::sync::atomic::{AtomicU64, Ordering};
+    use std::sync::Arc;
+    let first: Vec<u8> = (0..n_docs).flat_map(|i| format!("{{\"done\": {i}}}\n").into_bytes()).collect();
+    let later = b"{\"later\": true}\n".to_vec();
+    let want_first = crate::run::run_slice(&first, Some(Fmt::Json), to);
+    let want_later = crate::run::run_slice(&later, Some(Fmt::Json), to);
+    if !want_first.verdict.is_ok() || !want_later.verdict.is_ok() {
+        return Ok(false);
+    }
+    let sc = Scratch::new();
+    sc.file("done.json", &first);
+    sc.fifo("later.json");
+    let _g = procmon::shared_guard();
+    let mut cmd = Command::new(procmon::release_bin());
+    cmd.current_dir(sc.path()).env_clear().arg("-t").arg(to.name()).arg("done.json").stdout(Stdio::piped()).stderr(Stdio::piped());
+    if later_is_stdin {
+        cmd.arg("-f").arg("json").arg("-").stdin(Stdio::piped());
+    } else {
+        cmd.arg("later.json").stdin(Stdio::null());
+    }
+    let Ok(mut child) = cmd.spawn() else { return Ok(false) };
+    drop(cmd);
+    let got = Arc::new(AtomicU64::new(0));
+    let all = Arc::new(std::sync::Mutex::new(Vec::new()));
+    let mut so = child.stdout.take().unwrap();
+    let (g2, a2) = (got.clone(), all.clone());
+    let reader = std::thread::spawn(move || {
+        use std::io::Read;
+        let mut buf = [0u8; 65536];
+        loop {
+            match so.read(&mut buf) {
+                Ok(0) | Err(_) => break,
+                Ok(n) => {
+                    a2.lock().unwrap().extend_from_slice(&buf[..n]);
+                    g2.fetch_add(n as u64, Ordering::SeqCst);
+                }
+            }
+        }
+    });
+    let need = want_first.out.len() as u64;
+    let mut waited = 0u64;
+    let mut verdict: Result<bool, String> = Ok(true);
+    while got.load(Ordering::SeqCst) < need {
+        std::thread::sleep(std::time::Duration::from_millis(20));
+        waited += 20;
+        if waited >= wait_secs * 1000 {
+            verdict = Err(format!("{} of the {} bytes of the finished first input arrived within {} s while the later input was still pending", got.load(Ordering::SeqCst), need, wait_secs));
+            break;
+        }
+    }
+    if verdict.is_ok() {
+        // now the later input arrives
+        use std::io::Write;
+        if later_is_stdin {
+            let mut si = child.stdin.take().unwrap();
+            let _ = si.write_all(&later);
+        } else if let Ok(mut f) = std::fs::OpenOptions::new().write(true).open(sc.path().join("later.json")) {
+            let _ = f.write_all(&later);
+        }
+    } else {
+        let _ = child.kill();
+    }
+    let mut waited = 0;
+    loop {
+        match child.try_wait() {
+            Ok(Some(_)) => break,
+            Ok(None) if waited < 30_000 => {
+                std::thread::sleep(std::time::Duration::from_millis(20));
+                waited += 20;
+            }
+            _ => {
+                let _ = child.kill();
+                let _ = child.wait();
+                break;
+            }
+        }
+    }
+    let _ = reader.join();
+    if verdict.is_ok() {
+        let mut want = want_first.out.clone();
+        want.extend_from_slice(&want_later.out);
+        if *all.lock().unwrap() != want {
+            return Err(format!("after the later input arrived the output is {} bytes, expected {}", all.lock().unwrap().len(), want.len()));
+        }
+    }
+    verdict
+}
+
+pub fn visible_before_later_input(to: Fmt, later_is_stdin: bool, n_docs: usize, acc: &mut Acc) {
+    acc.evals += 1;
+    let mut r = visible_once(to, later_is_stdin, n_docs, 20);
+    if r.is_err() {
+        r = visible_once(to, later_is_stdin, n_docs, 90); // a wall-clock wait decided: repeat with a long one
+    }
+    match r {
+        Ok(true) => acc.count("earlier_output_visible_while_a_later_input_is_pending"),
+        Ok(false) => acc.inconclusive += 1,
+        Err(e) => acc.violation(Violation { sig: format!("the finished first input's output is withheld while a later input ({}) is pending", if later_is_stdin { "standard input" } else { "a FIFO" }), case: json!({"visible": true, "to": to.name(), "later_is_stdin": later_is_stdin, "documents": n_docs}), observed: e, expected: "the translation of an input that is done is on standard output before the next input is waited for".into() }),
+    }
+}
+
 pub fn run(ctx: &Ctx) -> i32 {
     let n = ctx.size(1500, 150000);
     let seed = ctx.seed;
@@ -344,14 +451,35 @@ pub fn run(ctx: &Ctx) -> i32 {
         acc.sample_every(149, || case.json());
         judge(&case, acc);
     });
-    let rule = format!("{} invocations: 1-6 inputs (one invocation in forty: 100-400 small inputs with the failing one near the end, under a limit of 16 open descriptors) with sizes from 5 B to 4 MiB (mostly below the 8 KiB stdout buffer, some straddling it, some far above), the failing input at every position in turn (or none), failure kinds {:?}, all four targets, stdout a pipe or a file (one run in nine: a full pipe in non-blocking mode, where the run must stop with status 1 at the first input whose output cannot be delivered instead of going on and blaming a later one), some inputs through standard input, some zero-length or blank files, one invocation in five with an input of exactly 256 / 512 / 1000 / 1023 / 1024 / 1025 / 2048 / 3072 / 4096 / 8192 / 10000 / 16384 one-line documents, one name in six not valid UTF-8; every second small input is a generated document in a random source format and spelling (named by its extension) whose last value is an empty string, an empty collection or another value that serializers finish with an unusual final write, delivered as a regular file, on standard input (format detected) or through a FIFO (named with or without its extension); expectation computed with the library; distinct non-trivial = distinct invocations", n, FAILURES);
+    let mut acc = acc;
+    let mut vis = vec![];
+    for to in [Fmt::Json, Fmt::Yaml, Fmt::Msgpack] {
+        for later_is_stdin in [false, true] {
+            for n_docs in [1usize, 40, 2000] {
+                vis.push((to, later_is_stdin, n_docs));
+            }
+        }
+    }
+    let v_acc = crate::par::run(vis.len(), 1, |i, acc| {
+        let (to, s, n) = vis[i];
+        visible_before_later_input(to, s, n, acc);
+    });
+    acc.merge(v_acc);
+    let rule = format!("{} invocations: 1-6 inputs (one invocation in forty: 100-400 small inputs with the failing one near the end, under a limit of 16 open descriptors) with sizes from 5 B to 4 MiB (mostly below the 8 KiB stdout buffer, some straddling it, some far above), the failing input at every position in turn (or none), failure kinds {:?}, all four targets, stdout a pipe or a file (one run in nine: a full pipe in non-blocking mode, where the run must stop with status 1 at the first input whose output cannot be delivered instead of going on and blaming a later one), some inputs through standard input, some zero-length or blank files, one invocation in five with an input of exactly 256 / 512 / 1000 / 1023 / 1024 / 1025 / 2048 / 3072 / 4096 / 8192 / 10000 / 16384 one-line documents, one name in six not valid UTF-8; every second small input is a generated document in a random source format and spelling (named by its extension) whose last value is an empty string, an empty collection or another value that serializers finish with an unusual final write, delivered as a regular file, on standard input (format detected) or through a FIFO (named with or without its extension); expectation computed with the library; plus 18 runs in which a first input is done and a later one (a FIFO, a pipe on standard input) is still pending: the first input's translation must arrive before the later input does (bounded wait, repeated with a long wait before it counts); distinct non-trivial = distinct invocations", n, FAILURES);
     ev::finish(
-        Finish { ctx, level: "fault_enumeration", rule, assumptions: vec!["how much of the FAILING input's own partial output reaches stdout is left open (anything between nothing and all of it)".into()], extra: serde_json::Map::new(), exhaustive: false, min_distinct: 300, must_reach: vec![("failures_with_earlier_output_below_buffer_size".into(), 100), ("expected_exit_0".into(), 50), ("failing_position_0".into(), 20), ("failing_position_3".into(), 20), ("generated_input_msgpack".into(), 30), ("generated_input_yaml".into(), 30), ("generated_input_json".into(), 30), ("generated_input_on_stdin".into(), 20), ("zero_length_or_blank_input".into(), 50), ("input_names_not_utf8".into(), 100), ("generated_input_through_fifo".into(), 30), ("inputs_with_an_exact_round_number_of_documents".into(), 100), ("invocations_with_hundreds_of_inputs".into(), 20), ("full_pipe_failure_reported_at_the_input_whose_output_was_lost".into(), 40)] },
+        Finish { ctx, level: "fault_enumeration", rule, assumptions: vec!["how much of the FAILING input's own partial output reaches stdout is left open (anything between nothing and all of it)".into()], extra: serde_json::Map::new(), exhaustive: false, min_distinct: 300, must_reach: vec![("failures_with_earlier_output_below_buffer_size".into(), 100), ("expected_exit_0".into(), 50), ("failing_position_0".into(), 20), ("failing_position_3".into(), 20), ("generated_input_msgpack".into(), 30), ("generated_input_yaml".into(), 30), ("generated_input_json".into(), 30), ("generated_input_on_stdin".into(), 20), ("zero_length_or_blank_input".into(), 50), ("input_names_not_utf8".into(), 100), ("generated_input_through_fifo".into(), 30), ("inputs_with_an_exact_round_number_of_documents".into(), 100), ("invocations_with_hundreds_of_inputs".into(), 20), ("full_pipe_failure_reported_at_the_input_whose_output_was_lost".into(), 40), ("earlier_output_visible_while_a_later_input_is_pending".into(), 18)] },
         acc,
     )
 }
 
 pub fn replay(v: &Value) -> i32 {
+    if v["case"]["visible"].as_bool() == Some(true) {
+        let c = &v["case"];
+        let Some(to) = c["to"].as_str().and_then(Fmt::parse) else { return 2 };
+        let mut acc = Acc::default();
+        visible_before_later_input(to, c["later_is_stdin"].as_bool().unwrap_or(false), c["documents"].as_u64().unwrap_or(1) as usize, &mut acc);
+        return if acc.vio_count > 0 { println!("VIOLATION property=C15 replay=<this file> (reproduced): {}", acc.violations[0].observed); 1 } else { println!("not reproduced"); 0 };
+    }
     let Some(case) = Case::parse(&v["case"]) else { return 2 };
     let mut acc = Acc::default();
     judge(&case, &mut acc);
